@@ -14,7 +14,6 @@ Local Open Scope N_scope.
    some source is present (otherwise the default stays). *)
 Theorem C15_precedence : forall flags bad args environ props calls,
   parse_args flags bad args [] = Ok calls ->
-  env_well_formed environ = true ->
   exists rs,
     parse_flags flags bad args environ fabio_prefixes props = Ok rs /\
     Forall2 (fun f r => r_name r = fname f /\
@@ -26,7 +25,6 @@ Print Assumptions C15_precedence.
 (* The same for any prefix list a caller passes. *)
 Theorem C15_precedence_any_prefixes : forall flags bad args environ prefixes props calls,
   parse_args flags bad args [] = Ok calls ->
-  env_well_formed environ = true ->
   exists rs,
     parse_flags flags bad args environ prefixes props = Ok rs /\
     Forall2 (fun f r => r_name r = fname f /\
@@ -47,7 +45,6 @@ Print Assumptions C15_env_case_insensitive.
    exactly v and the option counts as set. *)
 Theorem C15_source_equivalence : forall flags bad args environ props calls k v f,
   parse_args flags bad args [] = Ok calls ->
-  env_well_formed environ = true ->
   In f flags -> In k [1; 2; 3; 4] ->
   only_source calls environ props (fname f) k v ->
   exists rs r,
@@ -56,27 +53,44 @@ Theorem C15_source_equivalence : forall flags bad args environ props calls k v f
 Proof. exact source_equivalence. Qed.
 Print Assumptions C15_source_equivalence.
 
-(* "Never a panic" fails: an environment entry without '=' (for example FOO) panics,
-   whatever flags are registered and whatever else is configured ... *)
+(* Never a panic: ParseFlags returns results or an error for every argument list, every
+   environment block (entries without '=' included), every prefix list and properties map. *)
+Theorem C15_never_panics : forall flags bad args environ prefixes props,
+  parse_flags flags bad args environ prefixes props <> Panic.
+Proof. exact parse_flags_never_panics. Qed.
+Print Assumptions C15_never_panics.
+
+(* Entries that are not of the form NAME=VALUE are as good as absent. *)
+Theorem C15_entries_without_eq_ignored : forall flags bad args environ prefixes props,
+  parse_flags flags bad args environ prefixes props
+  = parse_flags flags bad args
+      (filter (fun e => match snd (cut_eq e) with Some _ => true | None => false end) environ)
+      prefixes props.
+Proof. exact entries_without_eq_ignored. Qed.
+Print Assumptions C15_entries_without_eq_ignored.
+
+(* Repaired in /repo by 3899f15 (finding F-C15-1).  The loop as it was before the fix
+   ([parse_flags_unrepaired]) panics on an environment entry without '=' (for example
+   FOO), whatever flags are registered and whatever else is configured ... *)
 Theorem C15_env_without_eq_refuted : forall flags bad prefixes props,
-  parse_flags flags bad [] [bs "FOO"] prefixes props = Panic.
-Proof. exact env_without_eq_witness. Qed.
+  parse_flags_unrepaired flags bad [] [bs "FOO"] prefixes props = Panic.
+Proof. exact unrepaired_env_without_eq_witness. Qed.
 Print Assumptions C15_env_without_eq_refuted.
 
-(* ... exactly the blocks with such an entry do (finding region 1) ... *)
-Theorem C15_env_without_eq_region : forall flags bad args environ prefixes props calls,
+(* ... on exactly the blocks with such an entry; elsewhere it equals the repaired one. *)
+Theorem C15_env_without_eq_unrepaired_region : forall flags bad args environ prefixes props calls,
   parse_args flags bad args [] = Ok calls ->
   env_well_formed environ = false ->
-  parse_flags flags bad args environ prefixes props = Panic.
-Proof. exact env_without_eq_panics. Qed.
-Print Assumptions C15_env_without_eq_region.
+  parse_flags_unrepaired flags bad args environ prefixes props = Panic.
+Proof. exact unrepaired_env_without_eq_panics. Qed.
+Print Assumptions C15_env_without_eq_unrepaired_region.
 
-(* ... and outside that region ParseFlags never panics. *)
-Theorem C15_never_panics_on_domain : forall flags bad args environ prefixes props,
+Theorem C15_unrepaired_agrees_on_domain : forall flags bad args environ prefixes props,
   env_well_formed environ = true ->
-  parse_flags flags bad args environ prefixes props <> Panic.
-Proof. exact parse_flags_never_panics_on_domain. Qed.
-Print Assumptions C15_never_panics_on_domain.
+  parse_flags_unrepaired flags bad args environ prefixes props
+  = parse_flags flags bad args environ prefixes props.
+Proof. exact unrepaired_agrees_on_domain. Qed.
+Print Assumptions C15_unrepaired_agrees_on_domain.
 
 (* parseKVSlice: every token consumes between 1 and len(s) runes ... *)
 Theorem C15_lex_consumes : forall s, s <> [] -> (1 <= tok_n (lex s) <= length s)%nat.
@@ -92,28 +106,47 @@ Theorem C15_kvslice_never_panics : forall s, parse_kvslice s <> KPanic /\ parse_
 Proof. exact parse_kvslice_never_panics. Qed.
 Print Assumptions C15_kvslice_never_panics.
 
-(* "Accepted => runnable" fails: glob.cache.size = 0 is accepted and the first lookup of
-   any pattern panics; a negative size is accepted and creating the cache panics
-   (finding region 2: size <= 0) ... *)
-Theorem C15_globcache_size_zero_refuted : forall p,
-  load_accepts_glob_cache_size 0 = true /\ first_use 0 p = Ok [Panic].
-Proof. exact size_zero_first_use_panics. Qed.
-Print Assumptions C15_globcache_size_zero_refuted.
+(* Accepted => runnable, for EVERY configured glob.cache.size and every sequence of
+   lookups: config.Load returns an error (size <= 0, load.go:364), or creating the cache
+   and all lookups proceed without panic. *)
+Theorem C15_accepted_never_panics : forall size calls,
+  load_then_use size calls = Err 1 \/
+  exists l, load_then_use size calls = Ok l /\ ~ In Panic l.
+Proof. exact accepted_never_panics. Qed.
+Print Assumptions C15_accepted_never_panics.
 
-Theorem C15_globcache_size_negative_refuted : forall size p,
-  (size < 0)%Z -> load_accepts_glob_cache_size size = true /\ first_use size p = Panic.
-Proof. exact size_negative_panics. Qed.
-Print Assumptions C15_globcache_size_negative_refuted.
+Theorem C15_load_accepts_iff : forall size,
+  load_accepts_glob_cache_size size = true <-> (0 < size)%Z.
+Proof. exact load_accepts_iff. Qed.
+Print Assumptions C15_load_accepts_iff.
 
-Theorem C15_globcache_region : forall size p, (size <= 0)%Z -> runnable size p = false.
-Proof. exact not_runnable_outside_domain. Qed.
-Print Assumptions C15_globcache_region.
-
-(* ... and for every size > 0 no sequence of lookups panics. *)
+(* The cache for every size > 0: no sequence of lookups panics. *)
 Theorem C15_globcache_ok_on_domain : forall size calls,
   (0 < size)%Z -> exists l, glob_session size calls = Ok l /\ ~ In Panic l.
 Proof. exact globcache_ok_on_domain. Qed.
 Print Assumptions C15_globcache_ok_on_domain.
+
+(* Repaired in /repo by e17deb4 (finding F-C15-2).  Before the fix load did not look at
+   the value: glob.cache.size = 0 was accepted and the first lookup of any pattern
+   panicked; a negative size was accepted and creating the cache panicked. *)
+Theorem C15_globcache_size_zero_refuted : forall p,
+  load_accepts_glob_cache_size_unrepaired 0 = true /\
+  load_then_use_unrepaired 0 [(p, true)] = Ok [Panic].
+Proof. exact unrepaired_size_zero_first_use_panics. Qed.
+Print Assumptions C15_globcache_size_zero_refuted.
+
+Theorem C15_globcache_size_negative_refuted : forall size p,
+  (size < 0)%Z ->
+  load_accepts_glob_cache_size_unrepaired size = true /\
+  load_then_use_unrepaired size [(p, true)] = Panic.
+Proof. exact unrepaired_size_negative_panics. Qed.
+Print Assumptions C15_globcache_size_negative_refuted.
+
+(* The cache itself is unchanged and still must not be created with a size <= 0. *)
+Theorem C15_globcache_not_runnable_outside_domain : forall size p,
+  (size <= 0)%Z -> runnable size p = false.
+Proof. exact not_runnable_outside_domain. Qed.
+Print Assumptions C15_globcache_not_runnable_outside_domain.
 
 (* non-vacuity: concrete configurations meet the hypotheses *)
 Theorem C15_source_equivalence_nonvacuous :
